@@ -82,7 +82,13 @@ pub fn summary_snap(s: &msi::SummaryInfo) -> SummarySnap {
     }
 }
 
+/// Whether `snapshot` also cross-checks the row accessors (by position, by
+/// name, announced sizes).  Switched off for deliberately corrupted files
+/// (C09), where e.g. two columns may legitimately carry one name.
+pub static ACCESSOR_CHECKS: std::sync::atomic::AtomicBool = std::sync::atomic::AtomicBool::new(true);
+
 fn snapshot_inner(p: &mut Pkg) -> Snapshot {
+    let accessor_checks = ACCESSOR_CHECKS.load(std::sync::atomic::Ordering::Relaxed);
     let ptype = ptype_code(p.package_type());
     let db_codepage = p.database_codepage().id();
     let mut metas: Vec<(String, Vec<ColSpec>)> = p
@@ -90,14 +96,80 @@ fn snapshot_inner(p: &mut Pkg) -> Snapshot {
         .map(|t| (t.name().to_string(), t.columns().iter().map(ColSpec::observed).collect()))
         .collect();
     metas.sort();
+    if accessor_checks {
+        // tables(), has_table() and get_table() describe the same set
+        for (name, cols) in &metas {
+            if !p.has_table(name) {
+                panic!("ACCESSORS DISAGREE: tables() lists {:?} but has_table says no", name);
+            }
+            match p.get_table(name) {
+                None => panic!("ACCESSORS DISAGREE: tables() lists {:?} but get_table returns None", name),
+                Some(t) => {
+                    let got: Vec<ColSpec> = t.columns().iter().map(ColSpec::observed).collect();
+                    if &got != cols || t.name() != name {
+                        panic!("ACCESSORS DISAGREE: get_table({:?}) describes {:?} {:?}, tables() {:?}", name, t.name(), got, cols);
+                    }
+                    for (i, c) in cols.iter().enumerate() {
+                        if !t.has_column(&c.name) {
+                            panic!("ACCESSORS DISAGREE: table {:?}: has_column({:?}) is false", name, c.name);
+                        }
+                        let keys: Vec<usize> = t.primary_key_indices();
+                        if keys.contains(&i) != c.key {
+                            panic!("ACCESSORS DISAGREE: table {:?}: primary_key_indices() = {:?} but column {} is_primary_key = {}", name, keys, i, c.key);
+                        }
+                    }
+                }
+            }
+        }
+        if p.has_table("No_Such_Table_") || p.get_table("No_Such_Table_").is_some() {
+            panic!("ACCESSORS DISAGREE: has_table / get_table answer for a table that is not listed");
+        }
+    }
     let mut tables = Vec::new();
     for (name, cols) in metas {
         let (rows, reported_len) = match p.select_rows(msi::Select::table(name.clone())) {
             Ok(rows) => {
                 let n = rows.len();
-                let v: Vec<Vec<Val>> = rows
-                    .map(|row| (0..row.len()).map(|i| Val::from_msi(&row[i])).collect())
-                    .collect();
+                // every way of reaching the same cells must agree: the
+                // iterator's announced sizes, the rows' own column lists,
+                // cells by position and by column name
+                let hint = rows.size_hint();
+                let rcols: Vec<String> = rows.columns().iter().map(|c| c.name().to_string()).collect();
+                let want_cols: Vec<String> = cols.iter().map(|c| c.name.clone()).collect();
+                if accessor_checks && rcols != want_cols {
+                    panic!("ACCESSORS DISAGREE: table {} has columns {:?} but the rows of a select on it announce {:?}", name, want_cols, rcols);
+                }
+                let mut v: Vec<Vec<Val>> = Vec::new();
+                for row in rows {
+                    let by_pos: Vec<Val> = (0..row.len()).map(|i| Val::from_msi(&row[i])).collect();
+                    if !accessor_checks {
+                        v.push(by_pos);
+                        continue;
+                    }
+                    if row.len() != want_cols.len() {
+                        panic!("ACCESSORS DISAGREE: a row of table {} has {} cells, the table {} columns", name, row.len(), want_cols.len());
+                    }
+                    let row_cols: Vec<String> = row.columns().iter().map(|c| c.name().to_string()).collect();
+                    if row_cols != want_cols {
+                        panic!("ACCESSORS DISAGREE: a row of table {} lists columns {:?}, the table {:?}", name, row_cols, want_cols);
+                    }
+                    for (i, c) in want_cols.iter().enumerate() {
+                        if !row.has_column(c) {
+                            panic!("ACCESSORS DISAGREE: row of table {}: has_column({:?}) is false", name, c);
+                        }
+                        let by_name = Val::from_msi(&row[c.as_str()]);
+                        if by_name != by_pos[i] {
+                            panic!("ACCESSORS DISAGREE: row of table {}: cell {} is {} by position and {} by the name {:?}", name, i, by_pos[i].show(), by_name.show(), c);
+                        }
+                    }
+                    if row.has_column("no such column") {
+                        panic!("ACCESSORS DISAGREE: row of table {}: has_column of a name that is not a column is true", name);
+                    }
+                    v.push(by_pos);
+                }
+                if accessor_checks && (hint.0 > v.len() || hint.1.map(|h| h < v.len()).unwrap_or(false)) {
+                    panic!("ACCESSORS DISAGREE: select on table {} announced size_hint {:?} and yielded {} rows", name, hint, v.len());
+                }
                 (Ok(v), n)
             }
             Err(e) => (Err(format!("{:?}: {}", e.kind(), e)), 0),
@@ -118,6 +190,35 @@ fn snapshot_inner(p: &mut Pkg) -> Snapshot {
             }
             Err(e) => Err(format!("open: {:?}", e.kind())),
         };
+        // the same bytes through the other ways of reading: seek to the
+        // middle and read the rest in small pieces; seek from the end
+        if let (true, Ok(all)) = (accessor_checks, &content) {
+            use std::io::{Seek, SeekFrom};
+            if let Ok(mut r) = p.read_stream(&n) {
+                let mid = all.len() / 2;
+                let pos = r.seek(SeekFrom::Start(mid as u64)).unwrap_or(u64::MAX);
+                let mut rest = Vec::new();
+                let mut chunk = [0u8; 7];
+                loop {
+                    match r.read(&mut chunk) {
+                        Ok(0) => break,
+                        Ok(k) => rest.extend_from_slice(&chunk[..k]),
+                        Err(e) => panic!("ACCESSORS DISAGREE: stream {:?}: small reads after a seek fail: {}", n, e),
+                    }
+                }
+                if pos != mid as u64 || rest != all[mid..] {
+                    panic!("ACCESSORS DISAGREE: stream {:?} ({} bytes): seek to {} returned {} and then {} bytes were read that {} the second half", n, all.len(), mid, pos, rest.len(), if rest == all[mid..] { "equal" } else { "differ from" });
+                }
+                if !all.is_empty() {
+                    let p2 = r.seek(SeekFrom::End(-1)).unwrap_or(u64::MAX);
+                    let mut last = [0u8; 1];
+                    let k = r.read(&mut last).unwrap_or(0);
+                    if p2 != all.len() as u64 - 1 || k != 1 || last[0] != all[all.len() - 1] {
+                        panic!("ACCESSORS DISAGREE: stream {:?}: seek(End(-1)) returned {} (length {}), then read {} byte(s)", n, p2, all.len(), k);
+                    }
+                }
+            }
+        }
         streams.push((n, content));
     }
     let has_signature = p.has_digital_signature();
